@@ -3,6 +3,7 @@ package props
 import (
 	"fmt"
 	"testing"
+	"unicode/utf8"
 
 	"github.com/hashicorp/hcl-lang/decoder"
 	"github.com/hashicorp/hcl-lang/lang"
@@ -64,7 +65,9 @@ func analyseFile(name string, hf *hcl.File) *fileInfo {
 		return fi
 	}
 	fi.native = true
-	fi.posModel = oracle.PosModelOK(hf.Bytes, name)
+	// (columns of bytes that are not valid UTF-8 depend on how much context the counter is given:
+	// the independent line/column model is only claimed for valid UTF-8)
+	fi.posModel = oracle.PosModelOK(hf.Bytes, name) && utf8.Valid(hf.Bytes)
 	files := map[string][]byte{name: hf.Bytes}
 	toks, _ := hclsyntax.LexConfig(hf.Bytes, name, hcl.InitialPos)
 	for _, tk := range toks {
